@@ -24,13 +24,13 @@ POOL_TECH = "deterministic simulation: the real pool between stub endpoints, see
 def pool(text, ref):
     return ("poolsim", "exploration", POOL_TECH, text + " Seeded search over schedules and fault sequences, not enumeration: a clean batch is evidence, not proof.", POOL_NOTE, ref)
 CHECKS.update({
- "C02": pool("At every hand-off of an HTTP/1 connection: no other holder, not busy since its previous exchange, not taken over by an upgrade, exactly one live handle.", "DESIGN.md 5 (C02), 4.A"),
+ "C02": ("poolsim+e2esim",) + pool("At every hand-off of an HTTP/1 connection: no other holder, not busy since its previous exchange, not taken over by an upgrade, exactly one live handle. Second part (e2esim): the real HttpConnection (stubbed in the pool part) under the real pool against real servers - in a fault-free run no request is refused by hyper on the spot, without reaching a handler, while another request's HTTP/1 exchange with the same origin is in progress.", "DESIGN.md 5 (C02), 4.A, 12")[1:],
  "C03": pool("After a fault-free drain (all dials/handshakes/responses resolved, background quiescent, only woken futures polled) every non-cancelled request must be ready; a forced poll distinguishes lost wake-ups from stranded requests; a probe request per origin must then succeed.", "DESIGN.md 5 (C03), 4.A"),
  "C04": pool("An open HTTP/1 connection whose exchanges were all delivered must not be destroyed by the pool (no idle limit or timeout in this profile). Every transport connect call is attributed to its request and classified from the state at that request's issue step: idle connection present at a quiescent point, HTTP/2 attempt in flight, HTTP/2 connection established; cancelling an unserved request must not destroy idle connections. Ambiguous competition is not judged.", "DESIGN.md 5 (C04), 4.A"),
  "C05": pool("At every hand-off of a pooled connection: not closed before the request was issued nor before its hand-back; not idle longer than idle_timeout at the issue instant (virtual clock via hook H2), for idle durations on both sides of the limit.", "DESIGN.md 5 (C05), 4.A"),
- "C06": ("poolsim+realconnect",) + pool("Second part (realconnect): the real TcpTransport with a static resolver whose answer carries another port than the URI - the returned stream must be connected to the URI's port. At every hand-off the (scheme, authority) the connection was dialed for equals the request's, over 2-4 origins that differ only in scheme (http, https, ws, wss), port, case, user information or host, with waiters and idle connections alive for several at once.", "DESIGN.md 5 (C06), 4.A")[1:],
+ "C06": ("poolsim+realconnect",) + pool("Second part (realconnect): the real TcpTransport with a static resolver whose answer carries another port than the URI - the returned stream must be connected to the URI's port. At every hand-off the (scheme, authority) the connection was dialed for equals the request's, over 2-4 origins that differ only in scheme (http, https, ws, wss), port, case, user information or host, a third of the runs with caller-supplied Host headers that name another configured authority, with waiters and idle connections alive for several at once.", "DESIGN.md 5 (C06), 4.A")[1:],
  "C14": pool("After each hand-back / HTTP/2 registration the first request with a provably live waiter must be handed that connection at its very next poll; abandoned attempts complete into the pool (continue_after_preemption) or are dropped at once (otherwise), and leave nothing behind: after a run in which an attempt was abandoned no request is stranded and a fresh request to the origin completes.", "DESIGN.md 5 (C14), 4.A"),
- "C15": ("poolsim+e2eidle",) + pool("After every step: open idle HTTP/1 connections retained per origin, minus those in transit to a pending request that has not been polled since it was woken, never exceeds max_idle_per_host in {0,1,2,k-1,k,k+1}. Second part (e2eidle): the same bound through a real Client built by Client::builder() in every order of the builder calls, real servers and SimNet - 100 ms of virtual time after a burst of k concurrent HTTP/1.1 requests the connections the client still holds are counted.", "DESIGN.md 5 (C15), 4.A, 11")[1:],
+ "C15": ("poolsim+e2eidle",) + pool("After every step: open idle HTTP/1 connections retained per origin, minus those in transit to a pending request that has not been polled since it was woken, never exceeds max_idle_per_host in {0,1,2,k-1,k,k+1}; a third of the runs address one origin under two spellings (host names are case-insensitive). Second part (e2eidle): the same bound through a real Client built by Client::builder() in every order of the builder calls, real servers and SimNet - 100 ms of virtual time after a burst of k concurrent HTTP/1.1 requests the connections the client still holds are counted.", "DESIGN.md 5 (C15), 4.A, 11")[1:],
  "C17": pool("Panic monitor (process-wide hook + catch_unwind around every call/poll/drop + background tasks) over step lists that include every http::Version constant, upgrades, cancels, service drop.", "DESIGN.md 5 (C17)"),
  "C18": ("iosim+realio", "exploration",
          "deterministic simulation: writer/reader scripts over each adapter stack on SimNet (seeded chunking, Pending injection, virtual delays, pipe capacity, over-initialising reads, flush-dependent writers, EOF/reset at byte offsets in either direction) compared with a reference FIFO; second part (realio): the same seeded writer/reader scripts over hyperdriver's TcpStream / UnixStream (connect, accept, pair), bare, inside Braid inside client/server Stream, and under TLS, carried by real loopback and Unix-domain sockets (fault-free)",
@@ -75,9 +75,9 @@ CHECKS.update({
    "DESIGN.md 5 (C13), 4.B"),
 })
 CHECKS["C17"] = ("poolsim+grammar+e2esim", "exploration",
-   "deterministic simulation with a process-wide panic monitor: (1) pool step lists incl. every http::Version constant, (2) the full cross product version x method x URI form x {Client, Client without pool, ConnectorService, ConnectorService over a URI-agnostic transport, the bare pooled service, the bare connector service} x {plain, TLS} against real servers, plus seeded header sets incl. obs-text values, (3) the ordinary end-to-end workload",
+   "deterministic simulation with a process-wide panic monitor: (1) pool step lists incl. every http::Version constant, (2) the full cross product version x method x URI form x {Client, Client without pool, ConnectorService, ConnectorService over a URI-agnostic transport, the bare pooled service, the bare connector service, the connector over the real TcpTransport with a resolver that always fails} x {plain, TLS} against real servers, plus seeded header sets incl. obs-text values, (3) the ordinary end-to-end workload",
    "No panic in the caller's task nor in any library-spawned task (debug assertions on), and every call resolves with a response or an error within a minute of virtual time.",
-   "hyper/h2/rustls exercised not verified; TcpTransport::get_host_and_port sits behind kernel sockets and is not run",
+   "hyper/h2/rustls exercised not verified; TcpTransport is run up to name resolution only (its reading of the URI, incl. port texts that are out of range, empty or zero); its sockets are not opened here",
    "DESIGN.md 5 (C17)")
 
 NOT_APPLICABLE = {
